@@ -7,7 +7,7 @@ from . import score_common as sc
 from .core import Prop, bits2f, exc_class
 
 CONTAINERS = ["list_int", "list_float", "tuple_int", "np_int64", "np_int32", "np_float64", "pl_int", "pl_float", "list_mixed",
-              "np_uint8", "np_uint32", "pl_uint32", "np_int8"]
+              "np_uint8", "np_uint32", "pl_uint32", "np_int8", "list_mixed_int_first"]
 ENTRY = ["score", "score", "ident", "decompose", "bias", "marginal", "iso"]
 
 
@@ -32,6 +32,8 @@ def conv(vals, container):
         return pl.Series([float(v) for v in vals], dtype=pl.Float64)
     if container == "list_mixed":
         return [int(v) if i % 2 else float(v) for i, v in enumerate(vals)]
+    if container == "list_mixed_int_first":
+        return [float(v) if i % 2 else int(v) for i, v in enumerate(vals)]  # a type inferred from the first element is wrong
     if container in ("np_uint8", "np_uint32", "np_int8"):
         return np.array(vals, dtype=container[3:])
     if container == "pl_uint32":
